@@ -15,6 +15,7 @@ import io
 import os
 from typing import Any
 
+SIM_MTIME_NS = 1_000_000_000 * 1_000_000_000
 _real_open = builtins.open
 _real_io_open = io.open
 
@@ -146,6 +147,10 @@ class SimFS:
         self.files[p] = data
         with _real_open(p, "wb") as f:  # also materialised: code bypassing the seam reads it
             f.write(data)
+        # the simulation has no clock: every stored file carries the same modification time, as
+        # after `cp -p` / `rsync -t` / unpacking an archive (a stat-validated cache must not
+        # mistake a replaced file for the old one)
+        os.utime(p, ns=(SIM_MTIME_NS, SIM_MTIME_NS))
         return p
 
     def queue_tape(self, path: str, tape: dict[str, Any]) -> None:
